@@ -12,3 +12,4 @@ import Jb.Model.Mlpg
 import Jb.Model.Vocoder
 import Jb.Props.C19
 import Jb.Props.C10
+import Jb.Props.C05
